@@ -19,7 +19,7 @@ from .C15 import defgrad
 PROP = "C20"
 
 EVIDENCE = {
-    "probes_expected": ["frames-compared", "early-stop-file-read-back", "roundtrip-compared", "save-compared", "merged-container-read", "custom-data-compared", "fault:h5_create_fail", "fault:disk_full", "second-job-compared", "mesh-object-history", "save-with-gradient"],
+    "probes_expected": ["frames-compared", "early-stop-file-read-back", "roundtrip-compared", "save-compared", "merged-container-read", "custom-data-compared", "fault:h5_create_fail", "fault:disk_full", "second-job-compared", "mesh-object-history", "save-with-gradient", "multibody-x0-file-compared"],
     "components": {
         "real": ["felupe (from /repo/src)", "numpy", "scipy incl. SuperLU", "meshio writers/readers", "h5py/HDF5 on a real scratch file"],
         "simulated": ["h5py.File proxy (fails on the n-th create_dataset / on close)", "linear solver fault layer", "job callback and data callables", "clock"],
@@ -31,7 +31,10 @@ FORMATS = ["vtk", "vtu", "xdmf"]
 
 def generate(seed, tier, k):
     r = gen.Streams(seed)["top"]
-    kind = r.choice(["job", "job", "job", "job", "roundtrip", "roundtrip", "save", "container"])
+    kind = r.choice(["job", "job", "job", "job", "roundtrip", "roundtrip", "save", "container", "multibody"])
+    if kind == "multibody":
+        mesh = gen.gen_mesh(r, allow=("linear",), max_cells=12)
+        return {"kind": kind, "seed": seed, "mesh": mesh, "c20": {"kind": kind, "nsub": r.choice([1, 2, 3]), "move": r.choice([0.05, 0.1, -0.05]), "stem": r.choice(["multi", "m.b"])}}
     if kind == "job":
         doc = gen.gen_job(seed, profile=r.choice(["general", "general", "history"]))
         mode = k % 3
@@ -637,8 +640,78 @@ def run_save(doc, log):
     return {"signature": f"save|{m.cell_type}|{o['format']}|{forces is not None}", "nontrivial": True}
 
 
+def run_multibody(doc, log):
+    """Two bodies on sub-meshes that share the points of one mesh, a top-level field on the whole
+    mesh handed over as x0 (documented multi-body workflow): the file holds the mesh of x0 and
+    every frame fits to it."""
+    import meshio
+
+    o = doc["c20"]
+    m = world.build_mesh(doc["mesh"])
+    if m.ncells < 2:
+        raise Discard("single-cell-mesh")
+    half = m.ncells // 2
+    subs = [fem.Mesh(m.points, m.cells[:half], m.cell_type), fem.Mesh(m.points, m.cells[half:], m.cell_type)]
+    import warnings
+
+    with warnings.catch_warnings():
+        warnings.simplefilter("ignore")
+        regions = [world.build_region(s_) for s_ in subs]
+        rtop = world.build_region(m)
+    mk = (lambda rg: fem.FieldPlaneStrain(rg, dim=2)) if m.dim == 2 else (lambda rg: fem.Field(rg, dim=3))
+    fields = [fem.FieldContainer([mk(rg)]) for rg in regions]
+    top = fem.FieldContainer([mk(rtop)])
+    bounds, _ = fem.dof.uniaxial(top, clamped=True, move=0.0)
+    solids = [fem.SolidBody(fem.NeoHooke(mu=1.0, bulk=4.0), fields[0]), fem.SolidBody(fem.NeoHooke(mu=3.0, bulk=9.0), fields[1])]
+    ext = float(m.points[:, 0].max() - m.points[:, 0].min())
+    ramp = fem.math.linsteps([0, o["move"] * ext], num=o["nsub"])[1:]
+    step = fem.Step(items=solids, ramp={bounds["move"]: ramp}, boundaries=bounds)
+    seen = []
+
+    def cb(j, i, substep):
+        seen.append([f.values.copy() for f in substep.x.fields])
+
+    name = o["stem"] + ".xdmf"
+    try:
+        fem.Job(steps=[step], callback=cb).evaluate(x0=top, filename=name, verbose=False)
+    except ValueError as e:
+        from ..kernel import Unexpected, newton_failure
+
+        if newton_failure(e):
+            raise Discard("newton-did-not-converge")
+        raise Unexpected(e, "multibody-job") from e
+    with meshio.xdmf.TimeSeriesReader(name) as reader:
+        pts, cells = reader.read_points_cells()
+        nfr = reader.num_steps
+        frames = [reader.read_data(k) for k in range(nfr)]
+    if nfr != len(seen):
+        raise Violation(PROP, "frame-count-and-order", f"{nfr} frames in the file, {len(seen)} converged substeps", site="file.frames.multibody")
+    if len(cells) != 1 or cells[0].data.shape != m.cells.shape or not np.array_equal(cells[0].data, m.cells) or not np.array_equal(np.asarray(pts)[:, : m.dim], m.points):
+        got = sum(len(c_.data) for c_ in cells)
+        raise Violation(PROP, "frame-content", f"the file of a job evaluated with x0= holds {got} cells, the mesh of x0 has {m.ncells}", site="file.mesh.x0")
+    # independent per-cell mean of F from the arrays of the top-level region
+    for k, (t, pd, cd) in enumerate(frames):
+        u = seen[k][0]
+        if not np.array_equal(np.asarray(pd["Displacement"])[:, : m.dim], u):
+            raise Violation(PROP, "frame-content", f"frame {k}: Displacement is not the top-level field of substep {k}", site="file.displacement.x0")
+        H = np.einsum("cai,aJqc->iJqc", u[m.cells], rtop.dhdX)
+        F = np.zeros((3, 3) + H.shape[2:])
+        F[: m.dim, : m.dim] = H
+        F += np.eye(3).reshape(3, 3, 1, 1)
+        Fm = F.mean(-2).transpose(2, 0, 1)
+        got = np.asarray(cd["Deformation Gradient"][0])
+        if got.shape[0] != m.ncells:
+            raise Violation(PROP, "frame-content", f"frame {k}: cell data have {got.shape[0]} rows, the mesh in the file has {m.ncells} cells", site="file.celldata.x0")
+        if not np.allclose(got.reshape(Fm.shape), Fm, rtol=1e-10, atol=1e-12):
+            raise Violation(PROP, "frame-content", f"frame {k}: Deformation Gradient is not the quadrature mean of F of the top-level field", site="file.defgrad.x0")
+    log.count("multibody-x0-file-compared")
+    return {"signature": f"multibody|{m.cell_type}|{o['nsub']}", "nontrivial": True, "sim": {"substeps_converged": len(seen)}}
+
+
 def run(doc, log):
     kind = doc["c20"]["kind"]
+    if kind == "multibody":
+        return run_multibody(doc, log)
     if kind == "roundtrip":
         return run_roundtrip(doc, log)
     if kind == "container":
